@@ -27,7 +27,16 @@ BATCH = 4000
 # ------------------------------------------------------------ generation
 def _maps(rng, vals_lo, vals_hi, present):
     """a map old->new with old inside [lo,hi]"""
-    style = rng.choice(['swap', 'cycle', 'partial', 'noninj', 'fresh', 'absent_old'])
+    style = rng.choice(['swap', 'cycle', 'partial', 'noninj', 'fresh', 'absent_old', 'fullperm'])
+    if style == 'fullperm' and len(present) >= 3:
+        # every label of the alphabet is mapped, listed in an arbitrary order (often smallest first, largest last)
+        old = present[:]
+        rng.shuffle(old)
+        if rng.random() < 0.6:
+            mid = [v for v in old if v not in (present[0], present[-1])]
+            old = [present[0]] + mid + [present[-1]]
+        new = [rng.randint(vals_lo, vals_hi + 40) for _ in old] if rng.random() < 0.5 else rng.sample(range(vals_lo, vals_lo + 10 * len(old)), len(old))
+        return old, new
     pool = list(range(vals_lo, vals_hi + 1))
     if style == 'swap' and len(present) >= 2:
         a, b = rng.sample(present, 2)
@@ -103,6 +112,11 @@ def _gen0(rng, tier):
             yield {'k': 'shift', 'form': form, 'trajs': trajs, 'old': old, 'new': new, 'alpha': 'narrow-' + dtype, 'dtype': dtype}
         else:
             yield {'k': rng.choice(['rbi', 'rbp', 'unique']), 'form': form, 'trajs': trajs, 'alpha': 'narrow-' + dtype, 'dtype': dtype}
+    for _ in range(1 if tier == 'quick' else 3):                   # more than 2^20 frames, a label that occurs only in the last few
+        labs = [0, 1, 2, 3]
+        n = 2**20 + rng.choice([1, 3, 5, 7])
+        t = [labs[(i // 97) % 3] for i in range(n - 2)] + [3, 3]
+        yield {'k': rng.choice(['unique', 'rbi']), 'form': 'arr1', 'trajs': [t], 'alpha': 'huge'}
     if tier == 'thorough':
         vals = [-1, 0, 2, 3]
         for L in range(1, 7):
